@@ -25,6 +25,7 @@ def run(tier, replay):
     dbtrace.run_modes(c, "C15", bins, work, modes, nontrivial)
     c.cov["rule"] = ("index scenarios (6 index shapes x 15 write paths, before and after the data), k-th-of-n failure grid, collision scenarios and random histories; every index "
                      "listing of every observed state is judged; distinct_nontrivial counts distinct (call kind, failed?, state changed?, events?) tuples")
-    c.assumptions += ["Index.List() de-duplicates entries per document: a duplicate entry of the same document under two keys is not visible (see DESIGN)",
+    c.assumptions += ["index entries are the document objects of the collection (lungo's design): an entry whose object is not in the document set is reported as a stale copy",
+                      "Index.List() de-duplicates entries per document: a duplicate entry of the same document under two keys is not visible (see DESIGN)",
                       "reopening the file is covered by C06"]
     return c.finish()
